@@ -155,6 +155,31 @@ impl<'de> Deserialize<'de> for Bytes {
 
 /// Typed data pushed through size thresholds: long strings, long sequences, maps with many
 /// keys, long tuples of options.
+/// A type that serializes through `Serializer::collect_str` (as chrono, url, … do) and
+/// deserializes from a string: as a value and as a map key.
+#[derive(PartialEq, Eq, PartialOrd, Ord, Debug, Clone)]
+pub struct Shown(pub u32, pub String);
+
+impl std::fmt::Display for Shown {
+    fn fmt(&self, f: &mut std::fmt::Formatter) -> std::fmt::Result {
+        write!(f, "{}:{}", self.0, self.1)
+    }
+}
+
+impl Serialize for Shown {
+    fn serialize<S: serde::Serializer>(&self, s: S) -> Result<S::Ok, S::Error> {
+        s.collect_str(self)
+    }
+}
+
+impl<'de> Deserialize<'de> for Shown {
+    fn deserialize<D: serde::Deserializer<'de>>(d: D) -> Result<Self, D::Error> {
+        let s = String::deserialize(d)?;
+        let (a, b) = s.split_once(':').ok_or_else(|| serde::de::Error::custom("no colon"))?;
+        Ok(Shown(a.parse().map_err(serde::de::Error::custom)?, b.to_string()))
+    }
+}
+
 pub fn pumped(rep: &mut Report, tier: Tier) {
     let cap = tier.pick(4097usize, 65537);
     let ns = refmodel::pump::thresholds(cap);
@@ -493,6 +518,33 @@ pub fn run(rep: &mut Report, tier: Tier) {
     for x in [0u64, 1, (1 << 53) + 1, i64::MAX as u64, i64::MAX as u64 + 1, u64::MAX - 1, u64::MAX] {
         contexts(&x, "u64", false, &mut t);
         key_context(&x, "BTreeMap<u64,_>", &mut t);
+    }
+    // (128-bit integers are outside C16's domain - "8-64-bit integers" - and the serializer rejects
+    // them by design: not checked, see DESIGN 10.5 correction 7)
+    // keys of other scalar types, std containers and smart pointers
+    // (bool keys: serde_json accepts them, json-syntax refuses; outside C16's list of key types)
+    key_context(&Some(1u8), "BTreeMap<Option<u8>,_>", &mut t);
+    key_context(&(), "BTreeMap<(),_>", &mut t);
+    contexts(&Box::new(5u8), "Box<u8>", false, &mut t);
+    contexts(&std::borrow::Cow::<'static, str>::Owned("cow".to_string()), "Cow<str>", false, &mut t);
+    contexts(&[1u8, 2, 3], "[u8; 3]", false, &mut t);
+    contexts(&[0u8; 0], "[u8; 0]", false, &mut t);
+    contexts(&(9u16,), "1-tuple", false, &mut t);
+    contexts(&std::collections::BTreeSet::from([3u8, 1, 2]), "BTreeSet<u8>", false, &mut t);
+    contexts(&std::collections::VecDeque::from([Some(1i8), None]), "VecDeque<Option<i8>>", false, &mut t);
+    contexts(&std::collections::BTreeMap::<String, u8>::new(), "empty map", false, &mut t);
+    contexts(&Vec::<u8>::new(), "empty Vec", false, &mut t);
+    contexts(&Some(vec![Some(vec![None, Some(1u8)])]), "Option<Vec<Option<Vec<Option<u8>>>>>", false, &mut t);
+    contexts(&std::num::NonZeroU8::new(7).unwrap(), "NonZeroU8", false, &mut t);
+    contexts(&std::time::Duration::new(3, 999_999_999), "Duration", false, &mut t);
+    contexts(&(1u8..5u8), "Range<u8>", false, &mut t);
+    contexts(&std::net::Ipv4Addr::new(127, 0, 0, 1), "Ipv4Addr", false, &mut t);
+    contexts(&Ok::<u8, String>(1), "Result::Ok", false, &mut t);
+    contexts(&Err::<u8, String>("e".into()), "Result::Err", false, &mut t);
+    contexts(&std::path::PathBuf::from("/a/b"), "PathBuf", false, &mut t);
+    for x in [Shown(0, String::new()), Shown(u32::MAX, "\"\\\n\u{e9}\u{1f600} a-tail-longer-than-sixteen-bytes".into())] {
+        contexts(&x, "collect_str type", false, &mut t);
+        key_context(&x, "BTreeMap<collect_str type,_>", &mut t);
     }
     contexts(&(), "()", false, &mut t);
     contexts(&UnitStruct, "unit struct", false, &mut t);
